@@ -1,6 +1,6 @@
 """C15 — variation operators keep every test case well-formed.
 
-Each case (forked child): a real pynguin session over a *generated* SUT module (``vf.gen.modules``: classes, enums,
+Each case: a real pynguin session over a *generated* SUT module (``vf.gen.modules``: classes, enums,
 fields, callables, collections in hints) or a corpus module (with or without annotations); a small population of test
 cases built by the real factory; then a drawn history of the real variation operators (``mutate``, the individual
 ``_mutation_insert/_change/_delete``, single statement changes, ``SinglePointRelativeCrossOver``, ``chop``,
@@ -41,7 +41,7 @@ META = {
     "design_ref": "DESIGN.md §3 C15",
     "rule": "case = SUT (generated module model from vf.gen.modules, or corpus module +/- annotations) x drawn search configuration "
             "(chromosome_length 5..40, mutation/insertion/reuse probabilities, chop_max_length, field statements) x 2..4 factory-built "
-            "test cases x 8..40 operations, pynguin RNG seeded per operation from a drawn int. Non-trivial = some checked state had a "
+            "test cases x 10..60 operations, pynguin RNG seeded per operation from a drawn int. Non-trivial = some checked state had a "
             "statement reading >= 2 earlier variables and the history applied a crossover/append after a deletion; distinct by the whole case",
     "assumptions": ["names a generated test may use without binding them are those the exported file binds: builtins, module alias, pytest, "
                     "public names of the SUT module (export.py)",
@@ -53,7 +53,7 @@ META = {
     "level_note": "Trusted: CPython ast/symtable; vf.session wiring equals generator._run; vf.gen.modules renders importable modules.",
 }
 PLAN = {
-    "quick": {"shards": 16, "examples": 192, "timeout": 1500, "local_search": False},
+    "quick": {"shards": 16, "examples": 400, "timeout": 1500, "local_search": False},
     "thorough": {"shards": 16, "examples": 4000, "timeout": 7200, "local_search": True},
 }
 
@@ -104,7 +104,7 @@ def strategy(ctx) -> st.SearchStrategy:
         "cfg": cfg,
         "seed": st.integers(0, 10**6),
         "pop": st.lists(st.tuples(st.integers(0, 10**6), st.integers(1, 1000)).map(list), min_size=2, max_size=4),
-        "ops": st.lists(_op(local_search), min_size=8, max_size=40),
+        "ops": st.lists(_op(local_search), min_size=10, max_size=60),
     })
 
 
@@ -238,7 +238,6 @@ def _child(case: dict[str, Any], module_dir: str, module_name: str) -> dict[str,
     failures: list[list[str]] = []
     labels: list[str] = []
     stats = {"checked": 0, "max_reads": 0, "max_size": 0, "timeouts": 0, "cross_after_delete": False, "overshoot": 0}
-    os.chdir(module_dir)
     with Session(module_dir, module_name, seed=case["seed"], algorithm="DYNAMOSA", coverage_metrics=("BRANCH",),
                  instantiate=uses_ls, scratch=module_dir, overrides=overrides) as s:
         length = config.configuration.search_algorithm.chromosome_length
@@ -262,10 +261,10 @@ def _child(case: dict[str, Any], module_dir: str, module_name: str) -> dict[str,
                     ok = False
                 if op in LENGTH_CHECKED and i in before and tc.size() > max(before[i], length):
                     stats["overshoot"] = max(stats["overshoot"], tc.size() - length)
+                    # recorded, but the test case is still well-formed: the history goes on
                     failures.append([f"size-exceeds-chromosome-length|{op}",
                                      f"after op {op} on test {i}: size {tc.size()} (before {before[i]}), chromosome_length {length}\n"
                                      f"{tc.to_code()[:900]}"])
-                    ok = False
             return ok
 
         if not verify("factory", list(range(len(pop))), {}):
@@ -326,7 +325,8 @@ def _child(case: dict[str, Any], module_dir: str, module_name: str) -> dict[str,
                     if pop[i].test_case.to_code() != code:
                         failures.append(["clone-renders-differently|clone", f"{code[:400]}\n---\n{pop[i].test_case.to_code()[:400]}"])
                 elif name == "execute":
-                    s.seed_rng(rng)
+                    if not tc.size():  # the executor's time budget is per statement: an empty test "times out" at once
+                        continue
                     result = s.executor.execute(tc)
                     if result.timeout:
                         stats["timeouts"] += 1
@@ -343,8 +343,11 @@ def _child(case: dict[str, Any], module_dir: str, module_name: str) -> dict[str,
                     tc.append_test_case_from(other, start)
                     stats["cross_after_delete"] |= deleted
                 elif name == "local_search":
+                    codes = {c.test_case.to_code() for c in pop}
                     pop[:] = _local_search(s, pop)
                     targets = list(range(len(pop)))
+                    if {c.test_case.to_code() for c in pop} - codes:
+                        labels.append("class:local-search-changed-a-test")
                 else:
                     raise AssertionError(name)
             except Exception as exc:  # noqa: BLE001
@@ -386,38 +389,60 @@ def _scratch() -> str:
     return tempfile.mkdtemp(prefix="vf_c15_", dir=os.environ.get("VF_SCRATCH_DIR") or os.environ.get("VERIF_SCRATCH"))
 
 
-def _preimport() -> None:
-    """Import pynguin once in the shard process: a forked child then starts with everything loaded (the import alone
-    costs several CPU seconds without byte-code caches)."""
-    import pynguin.generator  # noqa: F401
-    import pynguin.ga.operators.crossover  # noqa: F401
-    import pynguin.ga.operators.mutation  # noqa: F401
-    import pynguin.testcase.localsearch  # noqa: F401
-    import vf.session  # noqa: F401
+class _CaseTimeout(BaseException):
+    """Raised by the SIGALRM watchdog (BaseException: must not be swallowed by pynguin's ``except Exception``)."""
+
+
+def _alarm(_signo, _frame):
+    raise _CaseTimeout
 
 
 def evaluate(case: dict[str, Any]) -> Outcome:
-    import vf.gen.modules as gm
-    from vf.corpus import materialise_variant
-    from vf.iso import forked
+    """Runs in the shard process itself (a shard is a fresh interpreter; ``Session.close`` undoes the process-global effects).
+    Fork-per-case was measured at 3-12 CPU s per case on the build machine (copy-on-write faults), against 0.3 s in-process;
+    the operators have no unbounded loops and test executions are bounded by the executor, so a SIGALRM watchdog suffices."""
+    import signal
 
-    _preimport()
+    import vf.gen.modules as gm
+    from vf.core import exc_detail, exc_sig, has_pynguin_frame
+    from vf.corpus import materialise_variant
+    from vf.session import SessionSetupError
+
     out = Outcome()
     tmp = _scratch()
+    names: tuple[str, ...] = ()
+    module_dir = tmp
+    old_handler = signal.signal(signal.SIGALRM, _alarm)
+    val = None
     try:
         sut = case["sut"]
         if sut["kind"] == "gen":
             written = gm.write(sut["model"], tmp)
-            module_dir, module_name = written.path, written.sut
+            module_dir, module_name, names = written.path, written.sut, (written.sut, written.helper)
             out.labels.append("sut:generated")
         else:
             module_dir = os.path.join(tmp, "m")
             module_name = materialise_variant(sut["module"], module_dir, strip_annotations=sut["strip"])
+            names = (module_name,)
             out.labels.append("sut:corpus" + ("-unannotated" if sut["strip"] else ""))
-        kind, val = forked(lambda: _child(case, module_dir, module_name), timeout=600)
+        signal.alarm(600)
+        try:
+            val = _child(case, module_dir, module_name)
+        except _CaseTimeout:
+            out.inconclusive = "history exceeded 600 s"
+        except SessionSetupError:
+            out.inconclusive = "session-setup-failed (module has nothing to test)"
+        except Exception as exc:  # noqa: BLE001
+            if not has_pynguin_frame(exc):
+                raise
+            out.fail(f"unexpected-exception|{exc_sig(exc)}", exc_detail(exc))
+        finally:
+            signal.alarm(0)
     finally:
+        signal.signal(signal.SIGALRM, old_handler)
+        gm.forget(names, module_dir)
         shutil.rmtree(tmp, ignore_errors=True)
-    if kind == "ok":
+    if val is not None:
         for sig, detail in val["failures"]:
             out.fail(sig, f"{detail}\ncfg={case['cfg']}")
         stats = val["stats"]
@@ -435,15 +460,4 @@ def evaluate(case: dict[str, Any]) -> Outcome:
         out.sample = {"sut": sut if sut["kind"] == "corpus" else {"kind": "gen", "module": gm.module_names(sut["model"])[0]},
                       "cfg": case["cfg"], "ops": [o[0] for o in case["ops"]], "checked_states": stats["checked"],
                       "max_size": stats["max_size"]}
-    elif kind == "timeout":
-        out.inconclusive = "history exceeded 600 s"
-    elif kind == "exc":
-        if val.get("pynguin_frame"):
-            out.fail(f"unexpected-exception|{val['sig']}", val["detail"])
-        elif val.get("type") == "SessionSetupError":
-            out.inconclusive = "session-setup-failed (module has nothing to test)"
-        else:
-            raise RuntimeError("harness error in child: " + val["detail"])
-    else:
-        out.fail(f"child-died|{kind}", f"{kind} {val}")
     return out
